@@ -10,7 +10,8 @@
  *        fail:K:ERRNO   counted op K is not performed, returns -1 / errno
  *        short:K        counted op K, if a write, writes only half its bytes
  *        kill:K         SIGKILL to the whole process immediately before op K
- *        sig:K:NUM      signal NUM sent to the process immediately before op K
+ *        sig:K:NUM      signal NUM delivered (to the thread about to issue op K, so that the
+ *                       handler has run before the operation starts) immediately before op K
  *
  * Trace line (tab separated, one write(2) per line, raw syscall):
  *   seq  k  kind  fd  flags  ret  errno  inj  path  [path2]
@@ -240,7 +241,11 @@ static long before_op(int counted, int *fail_errno, int *shortw)
             for (;;) syscall(SYS_pause);
         case D_SIG:
             trace_line(k, "SIGNAL", -1, plan[i].arg, 0, 0, "sig", "", NULL);
-            syscall(SYS_kill, (int)syscall(SYS_getpid), plan[i].arg);
+            /* Thread-directed (tgkill to the calling thread): the handler has run by the time the
+             * call returns, so delivery is synchronous with the operation boundary. A
+             * process-directed kill() may be handled by any other thread at some later moment,
+             * which made verdicts depend on scheduling. */
+            syscall(SYS_tgkill, (int)syscall(SYS_getpid), (int)syscall(SYS_gettid), plan[i].arg);
             break;
         case D_FAIL: *fail_errno = plan[i].arg; break;
         case D_SHORT: *shortw = 1; break;
